@@ -469,7 +469,9 @@ func checkC15(rep *Report, pool *DriverPool, c *RCase) {
 		return
 	}
 	if !o.ErrIsSrc {
-		if o.Err == "EOF" && len(o.Bytes) == len(data) && c.Src.After >= len(stream)-trailerLen(c.API) {
+		// (a gzip Reader in its default mode has to look for a further member after the trailer: there the
+		// source's failure is what it must report, as compress/gzip does)
+		if o.Err == "EOF" && len(o.Bytes) == len(data) && c.Src.After >= len(stream)-trailerLen(c.API) && c.API != "gzip" {
 			rep.Count("complete-before-fault")
 			return
 		}
